@@ -484,6 +484,7 @@ where
 
     for step in 0..MAX_STEPS {
         stats.walk_steps = step + 1;
+        verif_tick!("locate/step");
 
         if !visited.insert(current_cell) {
             stats.fallback = Some(LocateFallback {
@@ -540,7 +541,9 @@ where
     U: DataType,
     V: DataType,
 {
+    verif_tick!("locate/scan_fallback");
     for (cell_key, cell) in tds.cells() {
+        verif_tick!("locate/scan_cell");
         let mut found_outside_facet = false;
         let facet_count = cell.number_of_vertices();
 
